@@ -111,3 +111,23 @@ def c13MapExample : Bool :=
   | (_, .ok m) => m == [{ name := "cookie", value := [52] }, { name := "host", value := [98] }, { name := "x-a", value := [51] }]
   | _ => false
 #guard c13MapExample
+
+/-- **C13 (no downgrade).** A request first made over https and redirected to an http target never carries
+    the original `Authorization`, on the same host or another, under either policy. -/
+theorem C13_no_downgrade (prev : AReq) (nm : Method) (uri : Uri) (sameHost : Bool) (h : Hdr)
+    (hin : h ∈ (followFlow prev nm uri sameHost).call.req.headers)
+    (hs : prev.uri.scheme = "https") (ht : uri.scheme = "http") : h.name ≠ "authorization" := by
+  intro e
+  obtain ⟨_, _, h3⟩ := C13 prev nm uri sameHost h hin
+  obtain ⟨_, _, h4⟩ := h3 e
+  rw [hs, ht] at h4
+  rcases h4 with h4 | h4 <;> exact absurd h4 (by decide)
+
+/-- **C13 (other host).** Whatever the policy, a target on a host other than the ORIGINAL request's never
+    receives the original `Authorization` — also when an earlier hop of the chain was on that other host. -/
+theorem C13_other_host (prev : AReq) (nm : Method) (uri : Uri) (sameHost : Bool) (h : Hdr)
+    (hin : h ∈ (followFlow prev nm uri sameHost).call.req.headers)
+    (hh : prev.uri.host ≠ uri.host) : h.name ≠ "authorization" := by
+  intro e
+  obtain ⟨_, _, h3⟩ := C13 prev nm uri sameHost h hin
+  exact hh (h3 e).2.1
